@@ -326,7 +326,7 @@ def run(ctx):
                             ev["b"] = describe(b)
                             res = apply_bin(op, a, b)
                         else:
-                            kind = rnd.choice(["int", "float", "complex", "list", "tuple", "str"] + (["npscalar", "ndarray"] if op in ("add", "sub", "mul") else []))
+                            kind = rnd.choice(["int", "float", "complex", "list", "tuple", "str", "npscalar", "ndarray"])
                             L = 1 if kind in ("int", "float", "complex", "npscalar") else rnd.choice([len(a), len(a), 1, len(a) + 1])
                             L = min(L, 40) if kind == "str" and L != len(a) else L
                             rows = [[[rnd.randrange(-5, 6) or 2, 0 if kind in ("int", "float") or rnd.random() < 0.5 else rnd.randrange(-3, 4)] for _ in range(L)]]
